@@ -264,6 +264,8 @@ def obligations(tier):
         ("T17", "dict", "single", 2),
         ("T17", "file_array", "per_output", 2),
         ("T5", "dict", "single", 2),
+        ("T4", "dict_sub", "single", 2),
+        ("T8", "mix_sub_first", "per_output", 2),
         ("T7p", "dict", "single", 2),
         ("TN2", "dict", "single", 2),
         ("TN2", "mix_file_first", "default_dict", 2),
@@ -272,18 +274,18 @@ def obligations(tier):
     full = [(tid, st, ek, 2) for tid in ("T1", "T3", "T4", "T5", "T7", "T7p", "T8", "T10", "T12", "T13", "T17") for st in ("dict", "file_array", "dict_sub", "mix_file_first", "mix_sub_first") for ek in ("single", "default_dict", "per_output")]
     for tid, st, ek, hi in full if thorough else quick:
         t = T[tid]
-        nch = 4 if not thorough else 6
+        nch = (4 if tid == "T1" else 3) if not thorough else 6
         cpre = " and ".join(f"0 <= c{i} <= 3" for i in range(nch)) + " and " + " and ".join(f"c{i} == 0" for i in range(nch, 8))
         obs.append(
             Ob(
                 f"sched_{tid}_{st}_{ek}",
                 C + MAP_PARAMS,
-                [cpre] + tmpl.size_pre(t, hi),
+                [cpre] + (tmpl.size_pre(t, hi) if (thorough or tid == "T1") else [" and ".join(f"n{a} == {2 if a < t.axes else 1}" for a in range(3))]),
                 f"H.sched({tid!r}, {st!r}, {ek!r}, {CARGS}, {MAP_ARGS})",
                 timeout=600,
                 flags=("tokpickle",),
                 bounds=f"{tid}: {t.doc}; storage {st}; executor {ek}; the first {nch} scheduling choices symbolic in 0..3 (all completion orders of up to "
-                f"4 pending tasks), sizes 1..{hi}; values unbounded",
+                f"4 pending tasks), sizes {'1..' + str(hi) if (thorough or tid == 'T1') else '2 per axis'}; values unbounded",
                 canaries=("results_paired_by_completion_order",) if (tid, st, ek) == ("T1", "dict", "single") else (),
             )
         )
@@ -296,11 +298,11 @@ def obligations(tier):
             Ob(
                 f"async_{tid}_{st}",
                 C[:4] + MAP_PARAMS,
-                [" and ".join(f"0 <= c{i} <= 3" for i in range(4))] + tmpl.size_pre(t, hi),
+                [" and ".join(f"0 <= c{i} <= 3" for i in range(4 if (thorough or tid == "T1") else 3)) + ("" if (thorough or tid == "T1") else " and c3 == 0")] + (tmpl.size_pre(t, hi) if (thorough or tid == "T1") else [" and ".join(f"n{a} == {2 if a < t.axes else 1}" for a in range(3))]),
                 f"H.sched_async({tid!r}, {st!r}, c0, c1, c2, c3, {MAP_ARGS})",
                 timeout=600,
                 flags=("tokpickle",),
-                bounds=f"{tid}: map_async with an event-loop-driven executor whose completion order is chosen by 4 symbolic ints; storage {st}; sizes 1..{hi}",
+                bounds=f"{tid}: map_async with an event-loop-driven executor whose completion order is chosen by 3-4 symbolic ints; storage {st}; sizes 1..{hi}",
             )
         )
     return obs
